@@ -45,6 +45,16 @@ def main(tier, seed, replay=None):
         for k in range(0, len(log) + 1):
             extra = [(rng.randrange(len(builds)), ["h1", "new%d" % k], 0x1234 + k)]
             cases.append((text, builds, log[:k], extra, len(log), ws))
+    # ... and the same after the manifest was edited before the restart: the first step is gone, its records are obsolete
+    for text, builds, ws, log in logs:
+        if len(builds) < 2:
+            continue
+        builds2 = builds[1:]
+        text2 = "rule r\n  command = x\n" + "".join("build %s: r\n" % " ".join(o) for o in builds2)
+        ws2 = [(wb - 1, wd, wh) for wb, wd, wh in ws if wb >= 1]
+        for k in range(0, len(log) + 1):
+            extra = [(rng.randrange(len(builds2)), ["h1", "new%d" % k], 0x4321 + k)]
+            cases.append((text2, builds2, log[:k], extra, len(log), None))     # (survivor check skipped: obsolete records drop out)
     if replay:
         rp = json.load(open(replay))["replay"]
         cases = [(rp["manifest"], rp["builds"], unhexs(rp["file_hex"]), [tuple(x) for x in rp["extra"]], 0, [])]
@@ -78,7 +88,7 @@ def main(tier, seed, replay=None):
         ok_states = []
         cur = {}
         ok_states.append(dict(cur))
-        for (wb, wdeps, wh) in ws:
+        for (wb, wdeps, wh) in (ws or []):
             cur[wb] = (wh, list(wdeps))
             ok_states.append(dict(cur))
         if ws and p["loaded"] not in ok_states:
